@@ -152,9 +152,19 @@ func runC12(s *core.Sim, tier string) RunInfo {
 			r.endV = s.Now()
 		})
 	}
+	// some writers ask for a Sync right after their appends, while these may still be queued
+	syncAfter := make([]bool, nw)
+	for wi := range syncAfter {
+		syncAfter[wi] = s.Tape.Coin("writer-syncs", 1, 3)
+	}
 	for wi := range plans {
 		wi := wi
 		tasks = append(tasks, s.Go(fmt.Sprintf("writer%d", wi), func() {
+			defer func() {
+				if syncAfter[wi] {
+					_ = w.St.Sync(context.Background())
+				}
+			}()
 			for _, r := range plans[wi] {
 				for _, h := range hdrs(r) {
 					setInvoked(h.Height())
